@@ -6,6 +6,9 @@ import (
 	"flag"
 	"fmt"
 	"os"
+	"runtime"
+	"runtime/debug"
+	"runtime/pprof"
 	"strings"
 	"time"
 
@@ -29,7 +32,25 @@ func main() {
 	slog := flag.String("solver-log", "", "write worker 0's solver transcript here")
 	tags := flag.String("tags", "verif", "build tags")
 	thorough := flag.Bool("thorough", false, "verifrt.Thorough() returns true")
+	cpuprof := flag.String("cpuprofile", "", "write CPU profile")
+	memprof := flag.String("memprofile", "", "write alloc profile")
 	flag.Parse()
+	if *memprof != "" {
+		runtime.MemProfileRate = 64 << 10
+		defer func() {
+			f, _ := os.Create(*memprof)
+			pprof.Lookup("allocs").WriteTo(f, 0)
+			f.Close()
+		}()
+	}
+	if os.Getenv("GOGC") == "" {
+		debug.SetGCPercent(100)
+	}
+	if *cpuprof != "" {
+		f, _ := os.Create(*cpuprof)
+		pprof.StartCPUProfile(f)
+		defer pprof.StopCPUProfile()
+	}
 
 	cfg := interp.Config{Dir: *dir, Pkg: *pkg, Tags: *tags, Workers: *workers, Solver: *solver,
 		MaxPaths: *maxPaths, Budget: *budget, MaxSteps: *maxSteps, QueryMs: *queryMs, AssertMs: *assertMs,
